@@ -15,6 +15,7 @@ sampled ops are additionally compared with a pristine interpreter (zygote).
 from __future__ import annotations
 
 import json
+import sys
 import types
 
 from . import env  # noqa: F401
@@ -159,6 +160,8 @@ def _closure_cache(fn):
 
 
 def cold_restart():
+    import re
+    re.purge()
     _inputstream.charsUntilRegEx.clear()
     treebuilders.treeBuilderCache.clear()
     treewalkers.treeWalkerCache.clear()
@@ -214,6 +217,36 @@ def _with_tokenizer_shim(cancel_at, seen, fn):
 
 
 # --------------------------------------------------------------------------
+# stack exhaustion seam: the "failing allocation" of this library - the call
+# is made with only L more Python frames available, so that a RecursionError
+# is raised *inside* token processing (an abort in the middle of a token)
+
+class _StackExhausted(Exception):
+    pass
+
+
+def _depth():
+    f = sys._getframe()
+    n = 0
+    while f is not None:
+        n += 1
+        f = f.f_back
+    return n
+
+
+def _with_stack_limit(extra, fn):
+    old = sys.getrecursionlimit()
+    sys.setrecursionlimit(_depth() + extra)
+    try:
+        try:
+            return fn()
+        finally:
+            sys.setrecursionlimit(old)
+    except RecursionError:
+        raise _StackExhausted()
+
+
+# --------------------------------------------------------------------------
 # executing one op on given objects
 
 def _doc_text(op):
@@ -253,8 +286,12 @@ def run_parse_op(parser, cfg, op, log_holder=None):
         try:
             if op.get("cancel_at") is not None or op.get("_count_tokens") is not None:
                 tree = _with_tokenizer_shim(op.get("cancel_at"), op.get("_count_tokens"), call)
+            elif op.get("stack") is not None:
+                tree = _with_stack_limit(op["stack"], call)
             else:
                 tree = call()
+        except _StackExhausted:
+            return ("stack_exhausted",)
         except ParseError as e:
             return ("parse_error", str(e), canon_errors(parser.errors), _doc_encoding(parser))
         except SimIOError as e:
@@ -345,7 +382,7 @@ def public_outcome(out):
     """What is compared between reused and fresh objects."""
     if out[0] == "ok" and len(out) == 5:
         return out[:4]
-    if out[0] in ("io_error", "cancelled"):
+    if out[0] in ("io_error", "cancelled", "stack_exhausted"):
         # after an abort from outside only the propagated exception is compared
         return out[:2]
     return out
@@ -478,6 +515,10 @@ def _add_fault(rng, cfg, op):
             return "io"
         op["cancel_at"] = rng.randint(0, max(0, ntok))
         return "cancel"
+    if r < 0.12 and op["op"] != "parse_bytes":
+        # only L more Python frames: RecursionError somewhere inside token processing
+        op["stack"] = rng.randint(4, 16)
+        return "stack"
     if r < 0.45:
         ntok, _ = _count(cfg, op)
         # bias towards the end of the document: right after the token that
@@ -615,12 +656,20 @@ def execute(case):
         cfg = case["objs"][oi]
         obj = objs[oi]
         tok_before = id(obj.__dict__.get("tokenizer")) if cfg["type"] == "parser" else None
+        if op.get("stack") is not None:
+            # a defined cache state, so that where the frame budget runs out
+            # does not depend on what this worker process executed before
+            cold_restart()
+            after_cold = True
         restarts_before = P.get("restart_fired", 0)
         out = exec_op(obj, cfg, op)
         pub = public_outcome(out)
-        ref = fresh_outcome(cfg, op)
+        ref = fresh_outcome(cfg, op) if op.get("stack") is None else None
         uses[oi] += 1
-        trace.append((kind, oi, pub[0], env.digest(pub)[:12]))
+        if op.get("stack") is not None:
+            trace.append((kind, oi, "stack_op"))
+        else:
+            trace.append((kind, oi, pub[0], env.digest(pub)[:12]))
         # ---- bookkeeping: faults fired, probes, reach
         if cfg["type"] == "parser":
             sig = end_state_signature(obj)
@@ -633,7 +682,9 @@ def execute(case):
                 f["read_raises"] = f.get("read_raises", 0) + 1
             elif how == "cancelled":
                 f["cancel_between_tokens"] = f.get("cancel_between_tokens", 0) + 1
-            if how in ("parse_error", "io_error", "cancelled"):
+            elif how == "stack_exhausted":
+                f["stack_exhaustion_mid_token"] = f.get("stack_exhaustion_mid_token", 0) + 1
+            if how in ("parse_error", "io_error", "cancelled", "stack_exhausted"):
                 if sig[3] is True:
                     P["abort_with_table_text_pending"] += 1
                 if sig[4] is True:
@@ -660,6 +711,12 @@ def execute(case):
             if out[0] == "ok" and out[3] is not None:
                 f["serializer_generator_abandoned"] = f.get("serializer_generator_abandoned", 0) + 1
         # ---- oracle: reused == fresh
+        if op.get("stack") is not None:
+            # where the frame budget runs out legitimately depends on how warm
+            # the process-wide caches are (a cache miss is a deeper call chain),
+            # so the outcome of the faulted call itself is not compared - what
+            # the object does *afterwards* is
+            continue
         if pub != ref:
             pr = _pristine(cfg, op)
             failure = ("reuse", "op %d (%s on object %d, use #%d): reused object gives %s, a brand-new object gives %s; %s; "
@@ -774,6 +831,8 @@ def _simpler_ops(op):
         yield dict(op, chunk=10240)
     if op.get("cancel_at"):
         yield dict(op, cancel_at=op["cancel_at"] - 1)
+    if op.get("stack") and op["stack"] > 1:
+        yield dict(op, stack=op["stack"] - 1)
     if op.get("encoding"):
         yield dict(op, encoding=None)
     if op.get("take"):
